@@ -16,15 +16,25 @@ HC = 'ntp_proto::nts::KeyExchangeServer::handle_connection::{closure#0}'
 EK = 'ntp_proto::nts::KeyExchangeClient::exchange_keys::{closure#0}'
 
 
+REQ = r'\(\(parse::\{closure#0\}\(.*Request::parse\(.*\) as Ready\)\.0 as Ok\)\.0'
+
+
+def selected(b):
+    """Expanded terms of the (protocol, algorithm) pair the server exports keys for, in the KeyExchange arm."""
+    ke = fact_is('^' + REQ + '$', ['KeyExchange'])
+    ex = one([s for s in b.calls(r'NtsKeys::extract_from_connection$') if b.must_pass(s.bb, ke)], 'key export in the KeyExchange arm')
+    a = [S(x) for x in b.call_args(ex)]
+    return ke, ex, a
+
+
 def r1(ctx):
     ctx.rule('C28-R1', 'server selection: protocol = client protocols.iter().find(|v| self.protocols.contains(v)).copied(); algorithm = client '
              'algorithms.iter().find(|v| !matches!(v, AeadAlgorithm::Unknown(_))).copied(); both iterate the lists of the parsed KeyExchange request')
     P = ctx.P
     b = P.body(HC)
-    for nm, listf in (('protocol', 'protocols'), ('algorithm', 'algorithms')):
-        li = one([i for i, l in enumerate(b.locals) if l.get('name') == nm and l['ty'].startswith('core::option::Option<ntp_proto::nts::')], 'local ' + nm)
-        v = N(b.local_term(li)) if False else S(b.local_term(li))
-        m = re.match(r'^Option::copied\(Iter::find\(slice::iter\(Cow::deref\(\(.* as KeyExchange\)\.%s\)\), closure:(.*)\)\)$' % listf, v)
+    ke, ex, a = selected(b)
+    for nm, listf, v in (('protocol', 'protocols', a[1]), ('algorithm', 'algorithms', a[2])):
+        m = re.match(r'^\(Option::copied\(Iter::find\(slice::iter\(Cow::deref\(\(%s as KeyExchange\)\.%s\)\), closure:([^()]*)\)\) as Some\)\.0$' % (REQ, listf), v, re.S)
         ctx.check('handle_connection|%s|first-match-in-client-order' % nm, m is not None, '%s is selected as `%s`' % (nm, v[:80] + ' ... ' + v[-120:]), sample=v[-200:])
         if m:
             cl = [c for c in user_closures(P, b) if c.id.split('::', 1)[1] == m.group(1)]
@@ -45,29 +55,28 @@ def r2(ctx):
     P = ctx.P
     ctx.check('DEFAULT_NUMBER_OF_COOKIES', P.const_val('ntp_proto::nts::DEFAULT_NUMBER_OF_COOKIES') == '8', 'cookie count constant', sample=P.const_val('ntp_proto::nts::DEFAULT_NUMBER_OF_COOKIES'))
     b = P.body(HC)
-    ke = fact_is(r'^request$', ['KeyExchange'], names=True)
+    ke, ex, xa = selected(b)
+    proto, alg = xa[1], xa[2]
+    keys = '(Result::branch(%s) as Continue).0' % S(b.call_term(ex.data)) if hasattr(b, 'call_term') else None
     enc = [s for s in b.calls(r'KeySet::encode_cookie$') if b.must_pass(s.bb, ke)]
     ctx.check('handle_connection|ke-encode-site', len(enc) == 1, 'encode_cookie sites in the KeyExchange arm: %d' % len(enc), sample=len(enc))
     for s in enc:
-        ctx.guard(b, s, 'in-cookie-loop', fact_is(r'^range::next\(iter\)$', 'Some', names=True), key='handle_connection|ke-encode|in-loop')
-        a = [N(x) for x in b.call_args(s)]
-        ctx.check('handle_connection|ke-encode|args', a == ['keyset', 'cookie'], 'encode_cookie(%s)' % a, s.where(), sample=a)
-    rng = [N(b.rvalue_term(s.data['rv'])) for s in b.aggregates(r'::Range$') if b.must_pass(s.bb, ke)]
+        ctx.guard(b, s, 'in-cookie-loop', fact_is(r'^range::next\(I::into_iter\(Range\{start: 0, end: DEFAULT_NUMBER_OF_COOKIES=8\}\)\)$', 'Some'), key='handle_connection|ke-encode|in-loop')
+        a = [S(x) for x in b.call_args(s)]
+        m = re.match(r'^DecodedServerCookie\{algorithm: (?P<a>.*), s2c: (?P<k>.*)\.s2c, c2s: (?P<k2>.*)\.c2s\}$', a[1], re.S)
+        ok = a[0] == 'keyset' and m is not None and m.group('a') == alg and m.group('k') == m.group('k2') and \
+            re.match(r'^\((Result::branch\()?NtsKeys::extract_from_connection\(', m.group('k')) is not None and re.search(r' as (Continue|Ok)\)\.0$', m.group('k')) is not None
+        ctx.check('handle_connection|ke-cookie-contents', ok, 'cookie is encoded from `%s ... %s`' % (a[1][:80], a[1][-80:]), s.where(), sample=a[1][:60])
+    rng = [S(b.rvalue_term(s.data['rv'])) for s in b.aggregates(r'::Range$') if b.must_pass(s.bb, ke)]
     ctx.check('handle_connection|ke-cookie-count', rng == ['Range{start: 0, end: DEFAULT_NUMBER_OF_COOKIES=8}'], 'cookie loop range %s' % rng, sample=rng)
-    lit = [s for s in b.aggregates(r'keyset::DecodedServerCookie$') if b.must_pass(s.bb, ke)]
-    for s in lit:
-        v = N(b.rvalue_term(s.data['rv']))
-        ctx.check('handle_connection|ke-cookie-contents', v == 'DecodedServerCookie{algorithm: algorithm, s2c: keys.s2c, c2s: keys.c2s}', 'cookie contents `%s`' % v, s.where(), sample=v)
-    ex = [s for s in b.calls(r'NtsKeys::extract_from_connection$')]
-    for s in ex:
-        a = [N(x) for x in b.call_args(s)]
-        ctx.check('handle_connection|key-export-args', a[1:] == ['protocol', 'algorithm'], 'keys exported for %s' % a[1:], s.where(), sample=a[1:])
+    ctx.check('handle_connection|key-export-args', proto.endswith('as Some).0') and alg.endswith('as Some).0') and proto != alg, 'keys exported for %s / %s' % (proto[-60:], alg[-60:]), ex.where(), sample=[proto[-40:], alg[-40:]])
     resp = [s for s in b.aggregates(r'messages::KeyExchangeResponse$') if b.must_pass(s.bb, ke)]
+    ctx.check('handle_connection|ke-response-site', len(resp) == 1, 'KeyExchangeResponse literals in the KeyExchange arm: %d' % len(resp), sample=len(resp))
     for s in resp:
         rv = s.data['rv']
-        f = {k: N(b.operand_term(o)) for k, o in zip(rv['fields'], rv['ops'])}
-        ctx.check('handle_connection|ke-response', f['protocol'] == 'protocol' and f['algorithm'] == 'algorithm' and f['cookies'] == 'T::into(cookies)',
-                  'response announces %s' % {k: f[k] for k in ('protocol', 'algorithm', 'cookies')}, s.where(), sample={k: f[k] for k in ('protocol', 'algorithm', 'cookies')})
+        f = {k: S(b.operand_term(o)) for k, o in zip(rv['fields'], rv['ops'])}
+        ctx.check('handle_connection|ke-response', f['protocol'] == proto and f['algorithm'] == alg and re.match(r'^T::into\(Vec::(with_capacity|new)\(', f['cookies']) is not None,
+                  'response announces %s' % {k: f[k][-60:] for k in ('protocol', 'algorithm', 'cookies')}, s.where(), sample={k: f[k][-40:] for k in ('protocol', 'algorithm', 'cookies')})
     e = P.body('ntp_proto::nts::NtsKeys::extract_from_connection')
     lits = e.aggregates(r'nts::NtsKeys$')
     ctx.check('extract_from_connection|literals', len(lits) == 2, 'NtsKeys literals: %d' % len(lits), sample=len(lits))
@@ -90,23 +99,23 @@ def r3(ctx):
              'response.algorithm in self.algorithms; the keys are exported for exactly (response.protocol, response.algorithm)')
     P = ctx.P
     b = P.body(EK)
-    oks = [s for s in b.aggregates(r'core::result::Result$', 'Ok') if 'KeyExchangeResult' in S(b.rvalue_term(s.data['rv']))[:60] or 'KeyExchangeResult' in N(b.rvalue_term(s.data['rv']))]
+    oks = [s for s in b.aggregates(r'core::result::Result$', 'Ok') if 'KeyExchangeResult' in S(b.rvalue_term(s.data['rv']))[:60]]
     ctx.check('exchange_keys|ok-sites', len(oks) == 1, 'Ok(KeyExchangeResult) sites: %d' % len(oks), sample=len(oks))
-    offered_p = fact_call(r'slice::contains$', True, [r'self\.protocols', r'\.protocol$'], names=True)
-    offered_a = fact_call(r'slice::contains$', True, [r'self\.algorithms', r'\.algorithm$'], names=True)
+    offered_p = fact_call(r'slice::contains$', True, [r'self\.protocols', r'\.protocol$'])
+    offered_a = fact_call(r'slice::contains$', True, [r'self\.algorithms', r'\.algorithm$'])
     for s in oks:
         ctx.guard(b, s, 'protocol-was-offered', offered_p, key='exchange_keys|Ok|protocol-was-offered',
                   msg='the client adopts the protocol named in the response without checking that it offered it')
         ctx.guard(b, s, 'algorithm-was-offered', offered_a, key='exchange_keys|Ok|algorithm-was-offered',
                   msg='the client adopts the AEAD algorithm named in the response without checking that it offered it')
     ex = one(b.calls(r'NtsKeys::extract_from_connection$'), 'key export in exchange_keys')
-    a = [N(x) for x in b.call_args(ex)]
-    ctx.check('exchange_keys|key-export-args', re.match(r'^\w+\.protocol$', a[1]) and re.match(r'^\w+\.algorithm$', a[2]) and a[1].split('.')[0] == a[2].split('.')[0],
+    a = [S(x) for x in b.call_args(ex)]
+    ctx.check('exchange_keys|key-export-args', a[1].endswith('.protocol') and a[2].endswith('.algorithm') and a[1][:-len('.protocol')] == a[2][:-len('.algorithm')] and 'KeyExchangeResponse::parse' in a[1],
               'keys exported for %s' % a[1:], ex.where(), sample=a[1:])
     req = [s for s in b.aggregates(r'messages::Request$', 'KeyExchange')]
     for s in req:
         rv = s.data['rv']
-        f = {k: N(b.operand_term(o)) for k, o in zip(rv['fields'], rv['ops'])}
+        f = {k: S(b.operand_term(o)) for k, o in zip(rv['fields'], rv['ops'])}
         ctx.check('exchange_keys|offer', f['algorithms'] == 'T::into(self.algorithms)' and f['protocols'] == 'T::into(self.protocols)', 'request offers %s' % f, s.where(),
                   sample={k: f[k] for k in ('algorithms', 'protocols')})
 
